@@ -53,6 +53,8 @@ def slice(ctx: fw.Ctx) -> fw.Outcome:
            lambda src: any(len(g.lanes) + g.tap + g.forced >= 2 for tr in src.tracks for g in tr.groups))
     ic.stable_under_reads(ctx, out, cases, "note events")
     long_sections(ctx, out)
+    from .. import direct as _direct
+    _direct.run(ctx, out, 'instrument', ic.prof(flags=0.5, garbage=0.0, exotic_pad=0.25))  # the section's own public parser, given the lines between the braces (padding and all), builds the same track
     return out
 
 
@@ -86,6 +88,9 @@ def long_sections(ctx, out):
 
 
 def replay(ctx, data):
+    if data.get("op") == "direct-section":
+        from .. import direct as _direct
+        return _direct.replay(data)
     if data.get("op") == "long":
         o = fw.Outcome("")
         ins, dif = impl.enums()
